@@ -124,7 +124,7 @@ impl Curve {
         if self.wcet_of_n_jobs.len() >= 3 {
             while self.wcet_of_n_jobs.len() + 1 < n {
                 #[cfg(feature = "verif")]
-                crate::verif_hooks::tick("wcet::Curve::extrapolate");
+                crate::verif_hooks::tick_n("wcet::Curve::extrapolate", 1 + self.wcet_of_n_jobs.len() as u64 / 64);
                 self.wcet_of_n_jobs.push(self.extrapolate_next())
             }
         }
